@@ -247,7 +247,6 @@ class C02(TwoPass):
     pid = "C02"
     prefixes = ("out", "ev", "q", "r", "lr", "ls")
     policies = ["af", "as"]
-    stated_not_proved = ['C02_crash_atomic end to end (file level) is not yet a theorem; stream-level torn-write theorems pending (TornProofs)']
     rule = ("base histories (HistGen, flush-per-operation policies, roll-over, GC, delete/re-create) are run once to learn their I/O "
             "event trace; crash images are cut before every kind of event (file creation, set_len, unlink, sync, flush weighted up) and "
             "inside write events at byte offsets {1,3,4,6,7,8,len/2,len-1,random}; each image is opened, a fixed continuation "
@@ -319,7 +318,6 @@ class C03(TwoPass):
     pid = "C03"
     prefixes = ("out", "ev", "q", "r", "lr", "ls")
     policies = ["no", "dif", "dis", "af", "as", "no", "dif"]
-    stated_not_proved = ['C03_persisted_survive end to end is not yet a theorem; proved so far: policy independence (C14), byte accounting (C15: what a persist flushes), GC-before-unlink ordering is checked on the trace']
     rule = ("base histories under every policy (DoNothing, OnDelay with an interval longer than the run, Always(Flush), Always(FlushAndFsync)) "
             "with explicit persist calls interleaved, roll-over and GC; crash images at every kind of event in two loss models: process crash "
             "(what reached the OS; byte cuts inside writes) and power loss (only writes followed by a sync_data of their file survive); "
@@ -399,7 +397,6 @@ class C04(TwoPass):
     pid = "C04"
     prefixes = ("out", "ev", "q", "r", "lr", "ls")
     policies = ["af", "as"]
-    stated_not_proved = ['restart half: that open after a clean drop reproduces every next position (C01_restart_identity) is not yet a theorem end to end; proved so far: suffix replay preserves next positions at the entry level (pending ReplaySpec), live monotonicity (PropC04.v); checked by the oracle on every run', 'crash half: rests on C02 (stream-level torn-write theorems pending)']
     rule = ("histories biased to queues that are emptied (truncated to or beyond their last position) and then stay idle while other queues "
             "append enough to roll over and garbage-collect every file that mentioned them; clean restarts at random points and crash images "
             "(as C02) followed by automatic-position appends on every queue; non-trivial/distinct as for C02")
@@ -500,7 +497,6 @@ class C06(PropBase):
     prefixes = ("out", "ev", "q", "r", "ls", "use")
     policies = ["af", "as"]
     quick_cases = 96
-    stated_not_proved = ["that the handle-passing of MemQueue::append_record (Option<FileNumber> per record) keeps exactly the last record of each (queue, file) run referenced is modelled literally but the link 'qs_ref f  <->  some retained record was appended while the writer was in f' is not yet a theorem", 'open establishes wr_ok only for directories without numbering gaps (stated in GcProofs as a premise)']
     rule = ("HistGen histories with multi-file payloads, truncations that free files, deletions and restarts; the file into which each append was written "
             "is read off the I/O trace (file of the call's first write event); non-trivial/distinct as for C01")
     oracle_text = ("after every successful truncate / delete_queue / open: the WAL files listed are a contiguous run ending at the file being written; no listed file is "
@@ -614,7 +610,6 @@ class C07(PropBase):
     policies = ["af", "no"]
     quick_cases = 140
     thorough_cases = 2500
-    stated_not_proved = ['round trip through the rolling files (RollingWriter/RollingReader, entries spanning files, reader cursor = writer cursor): FileStream.v pending; covered by the correspondence and the restart oracle meanwhile']
     rule = ("(a) in-memory record log (RecordWriter over a Vec block writer, RecordReader over the blocks): sequences of 1-6 raw entries whose lengths are "
             "aimed so that entries end exactly at a block end, leave 1..8 bytes before it (less than / exactly / just above a frame header), start with an empty "
             "first frame, or span 2-10 blocks; every block the writer produced is compared with the model's; (b) the same through files: appends "
@@ -704,7 +699,8 @@ class C07(PropBase):
                     vs.append({"msg": "cmd %d: byte counts add up to %d, stream is %d bytes" % (i, total, blocks), "shape": "mem-count"})
                     return vs
             elif c["name"] in MUT + ("persist",):
-                last_obs = logical(obs_of(c))
+                if "err=NoLog" not in (outcome_of(c) or ""):
+                    last_obs = logical(obs_of(c))
             elif c["name"] == "open" and i > 0 and tr[i - 1]["name"] == "drop":
                 if outcome_of(c) != "out open ok":
                     vs.append({"msg": "cmd %d: reading the files back failed: %r" % (i, outcome_of(c)), "shape": "file-roundtrip"})
@@ -843,7 +839,6 @@ def evil_payload(qname_bytes):
 class C08(DamageBase):
     pid = "C08"
     prefixes = ("out", "q", "r", "lr")
-    stated_not_proved = ['without NoEmbedded the full statement is false (known finding F4); general damage (length / type fields) is covered by the oracle only; proved: positions strictly increasing for ANY directory content (open_inv), codec soundness, CRC-detected damage (DamageProofs pending)']
     rule = ("base histories ended by a clean drop; then in-place damage of the WAL files (lengths unchanged): frame-aimed (each header field of a writer frame, "
             "first/last payload byte, padding, bytes around block ends) x {bit flip, 0x00, 0xFF, random run, zero-fill run}, 1-3 damages per image, plus random offsets, "
             "plus the adversarial family 'payload embedding a CRC-valid frame + damaged length field of the preceding frame' (the known finding); "
@@ -963,7 +958,7 @@ class C08(DamageBase):
             prev = -1
             for rec in q["recs"]:
                 if rec not in uni.get(qn, set()):
-                    shape = "embedded-frame" if (cid.startswith("evil") and rec[0] == EVIL_POS) else "invented-record"
+                    shape = "embedded-frame" if (("evil" in cid) and rec[0] == EVIL_POS) else "invented-record"
                     vs.append({"msg": "open returned record %r of queue %s, which was never appended" % (rec, qn), "shape": shape})
                     if shape != "embedded-frame":
                         return vs
@@ -978,7 +973,6 @@ class C08(DamageBase):
 class C09(DamageBase):
     pid = "C09"
     prefixes = ("out", "q", "r", "lr")
-    stated_not_proved = ['file-level statement (through open) rests on FileStream.v (pending); stream-level theorem in DamageProofs (pending)']
     rule = ("base histories (biased to delete/re-create and control entries near block ends) ended by a clean drop; the frame layout of every call is derived "
             "from its write events and entry length; for each sampled writer frame still on disk one damage confined to its checksum bytes or payload bytes "
             "(flip of first/last payload byte, of a CRC byte, zeroed payload, random payload); non-trivial/distinct as for C08")
@@ -1022,6 +1016,8 @@ class C09(DamageBase):
         if len(tr) < len(cmds):
             return vs
         hit = int(cid.split("_h")[1].split("_")[0]) if "_h" in cid else None
+        if hit is None:
+            return vs       # a case without its metadata (which call was hit) cannot be judged
         di = next(i for i, c in enumerate(cmds) if c.startswith("damage "))
         base = cmds[:di]
         o = tr[-1]
@@ -1091,7 +1087,6 @@ def forge_block_entries(rng, qnames):
 class C10(DamageBase):
     pid = "C10"
     prefixes = ("out", "q", "r", "lr", "acc")
-    stated_not_proved = ["panic freedom: the model is total (slices and indexing default), so 'never panics' is not a model theorem; it is checked on the real crate under catch_unwind on every generated image; proved: termination on every directory and well-formedness of the returned state", 'allocation bound is not stated as a theorem']
     rule = ("base histories ended by a clean drop, then arbitrary derivations of the directory: overwritten / zeroed runs, truncation of a file to {0,1,B-1,B,B+1,2B,random} bytes, "
             "removed files, duplicated and transposed files (copy of file i over file j), stray entries (near-miss names, sub-directory, symlink), random blocks, and CRC-valid "
             "forged blocks built from random entries with extreme field values (positions up to 2^64-2, empty and truncated bodies, all frame types); "
@@ -1194,7 +1189,7 @@ class C10(DamageBase):
                 bad = "the driver died: %s" % out
             if bad:
                 forged_max = any(("ff" * 8) in x or ("fe" + "ff" * 7) in x for x in cmds if x.startswith("damage "))
-                shape = "position-u64-max" if (cid == "u64max" or (forged_max and "Hang" not in bad and "driver died" not in bad)) else "panic-or-hang"
+                shape = "position-u64-max" if (cid.endswith("u64max") or (forged_max and "Hang" not in bad and "driver died" not in bad)) else "panic-or-hang"
                 vs.append({"msg": "cmd %d: %s" % (i, bad), "shape": shape})
                 return vs
         return vs
@@ -1206,7 +1201,6 @@ class C11(TwoPass):
     prefixes = ("out", "ev", "q", "r")
     policies = ["af"]
     per_base_quick = 40
-    stated_not_proved = []
     rule = ("base histories leaving 1-4 WAL files, clean drop; a fault-free open is traced to count the read_dir / open / read calls recovery makes; then for every n below that count "
             "(sampled) a fault plan 'the n-th call of that site fails, once or from then on, with PermissionDenied / Other / Interrupted / NotFound' is armed and open is called "
             "with a deadline; non-trivial = the injected failure was reached; distinct = distinct transcripts")
@@ -1268,7 +1262,6 @@ class C12(TwoPass):
     pid = "C12"
     prefixes = ("out", "ev", "q", "r", "lr")
     policies = ["af", "as"]
-    stated_not_proved = ['stream level: that a torn or CRC-damaged entry is never delivered partially (TornProofs / DamageProofs pending); entry level and codec level are proved']
     rule = ("base histories followed by one batch append of 2-6 records whose total size is {small, about a block, three blocks, more than a file} at an aimed alignment, then 0-3 further "
             "calls (truncations of that queue included) and a clean drop; derived images: crash cuts at and inside every write event of the batch call and later, and single-frame "
             "damage of frames written by the batch call; non-trivial/distinct as for C02")
@@ -1418,7 +1411,6 @@ class C14(PropBase):
     policies = ["af", "as", "no", "d0f", "dif", "dis", "d0s"]
     quick_cases = 30
     thorough_cases = 400
-    stated_not_proved = ['L_GC P = false (the current code: GC always persists before unlinking) is a premise of the step/run theorems']
     rule = ("each HistGen history (with explicit persist calls, roll-over, GC, restarts) is run under seven policies: Always(Flush), Always(FlushAndFsync), DoNothing, "
             "OnDelay(0 ns / 1 h) x (Flush / FlushAndFsync); non-trivial/distinct as for C01")
     oracle_text = ("metamorphic, on the real crate: for every call the outcome (positions, eviction count, error, wal_bytes_written) and the full observable state are identical "
@@ -1494,7 +1486,6 @@ class C18(PropBase):
     policies = ["af", "no"]
     quick_cases = 40
     thorough_cases = 500
-    stated_not_proved = ['restart and crash halves rest on C01/C02; proved: live projection for every history, replay touches only the named queue']
     rule = ("HistGen histories over 2-4 queues sharing WAL files (roll-over, truncation- and deletion-driven GC, restarts); for each queue q the projected history h|q "
             "(calls addressed to q plus restarts and persists) is run as well; non-trivial/distinct as for C01")
     oracle_text = ("metamorphic, on the real crate: after every call of h addressed to q and after every restart, q's existence, records (positions, payload hashes) and next position, "
@@ -1600,5 +1591,9 @@ class C18(PropBase):
         return res
 
 
+import not_proved
 PROPS.update({"C02": C02, "C03": C03, "C04": C04, "C06": C06, "C07": C07, "C08": C08, "C09": C09,
               "C10": C10, "C11": C11, "C12": C12, "C14": C14, "C18": C18})
+
+for _pid, _cls in PROPS.items():
+    _cls.stated_not_proved = not_proved.NOT_PROVED.get(_pid, [])
